@@ -373,44 +373,116 @@ func envUnwrapCase(s *cases.Set, data, kek []byte, kind string) {
 		Replay: map[string]interface{}{"api": "backend.KeyEnvelope.Unwrap", "aeskey": fmt.Sprintf("%x", data), "kek": fmt.Sprintf("%x", kek), "observed": o}})
 }
 
+// flipBit returns a copy of b with one bit of byte i flipped.
+func flipBit(b []byte, i int, bit uint) []byte {
+	c := append([]byte{}, b...)
+	c[i] ^= 1 << bit
+	return c
+}
+
 func envCases(s *cases.Set, r *cq.RNG, thorough bool) {
-	n := 14
+	n := 5
 	if thorough {
-		n = 400
+		n = 120
 	}
 	var key lorawan.AES128Key
-	for i := 0; i < n; i++ {
-		copy(key[:], r.Bytes(16))
-		kek := r.Bytes(16)
-		envNewCase(s, "kek-label", kek, key, "envelope-wrapped-aes128")
-		envNewCase(s, "", kek, key, "envelope-no-label-clear")
-		if i%3 == 0 {
-			envNewCase(s, "lbl", nil, key, "envelope-label-but-empty-kek-clear")
-			envNewCase(s, "lbl", r.Bytes([]int{1, 5, 15, 17, 23, 31, 33}[r.Intn(7)]), key, "envelope-bad-kek-length")
+	// RFC 3394 4.1 / 4.2 / 4.3 first: key data 00112233..ff under the KEKs 000102.. of 16, 24 and 32 bytes
+	copy(key[:], []byte{0x00, 0x11, 0x22, 0x33, 0x44, 0x55, 0x66, 0x77, 0x88, 0x99, 0xaa, 0xbb, 0xcc, 0xdd, 0xee, 0xff})
+	for _, kl := range []int{16, 24, 32} {
+		kek := make([]byte, kl)
+		for i := range kek {
+			kek[i] = byte(i)
 		}
-		env, _ := backend.NewKeyEnvelope("l", kek, key)
-		w := append([]byte{}, env.AESKey...)
-		envUnwrapCase(s, w, kek, "unwrap-valid")
-		c := append([]byte{}, w...)
-		c[r.Intn(len(c))] ^= 1 << uint(r.Intn(8))
-		envUnwrapCase(s, c, kek, "unwrap-corrupted-ciphertext")
-		envUnwrapCase(s, w, r.Bytes(16), "unwrap-wrong-kek")
-		if i%2 == 0 {
-			envUnwrapCase(s, append(append([]byte{}, w...), r.Bytes(1+r.Intn(7))...), kek, "unwrap-valid-plus-partial-block")
-			envUnwrapCase(s, r.Bytes(16+8*r.Intn(3)), kek, "unwrap-random-data")
-			envUnwrapCase(s, key[:], kek, "unwrap-clear-key-as-if-wrapped")
-		}
+		envNewCase(s, "rfc3394", kek, key, fmt.Sprintf("envelope-rfc3394-vector-aes%d", kl*8))
 	}
-	kek := r.Bytes(16)
-	envUnwrapCase(s, nil, kek, "unwrap-short-data")
-	envUnwrapCase(s, r.Bytes(7), kek, "unwrap-short-data")
-	envUnwrapCase(s, r.Bytes(8), kek, "unwrap-short-data")
-	envUnwrapCase(s, []byte{0xa6, 0xa6, 0xa6, 0xa6, 0xa6, 0xa6, 0xa6, 0xa6}, kek, "unwrap-short-data")
-	envUnwrapCase(s, append([]byte{0xa6, 0xa6, 0xa6, 0xa6, 0xa6, 0xa6, 0xa6, 0xa6}, r.Bytes(5)...), kek, "unwrap-short-data")
-	envUnwrapCase(s, r.Bytes(15), kek, "unwrap-short-data")
-	envUnwrapCase(s, r.Bytes(24), r.Bytes(5), "unwrap-bad-kek-length")
+	for _, kl := range []int{16, 24, 32} {
+		aesName := fmt.Sprintf("aes%d", kl*8)
+		for i := 0; i < n; i++ {
+			copy(key[:], r.Bytes(16))
+			kek := r.Bytes(kl)
+			switch i {
+			case 1: // structured KEKs and keys
+				kek = make([]byte, kl)
+				key = lorawan.AES128Key{}
+			case 2:
+				for j := range kek {
+					kek[j] = 0xff
+				}
+			case 3: // the halves of the KEK are equal (a cipher that looks at the first 16 bytes only cannot tell)
+				copy(kek[kl-16:], kek[:16])
+			}
+			// neighbour family: the base call, the same call with exactly one thing changed, the base call again
+			envNewCase(s, "kek-label", kek, key, "envelope-wrapped-"+aesName)
+			envNewCase(s, "", kek, key, "envelope-no-label-clear-"+aesName)
+			envNewCase(s, "kek-label", flipBit(kek, kl-1, uint(r.Intn(8))), key, "envelope-wrapped-last-kek-byte-changed-"+aesName)
+			envNewCase(s, "kek-label", flipBit(kek, r.Intn(kl), uint(r.Intn(8))), key, "envelope-wrapped-one-kek-bit-changed-"+aesName)
+			var key2 lorawan.AES128Key
+			copy(key2[:], flipBit(key[:], r.Intn(16), uint(r.Intn(8))))
+			envNewCase(s, "kek-label", kek, key2, "envelope-wrapped-one-key-bit-changed-"+aesName)
+			if i%3 == 0 {
+				envNewCase(s, "k", kek, key, "envelope-wrapped-other-label-"+aesName)
+				envNewCase(s, "lbl", nil, key, "envelope-label-but-empty-kek-clear")
+				bad := []int{1, 5, 8, 15, 17, 20, 23, 25, 31, 33, 40, 48, 64}[r.Intn(13)]
+				envNewCase(s, "lbl", r.Bytes(bad), key, "envelope-bad-kek-length")
+				envNewCase(s, "", r.Bytes(bad), key, "envelope-no-label-bad-kek-length-clear")
+			}
+			envNewCase(s, "kek-label", kek, key, "envelope-wrapped-"+aesName)
+			env, err := backend.NewKeyEnvelope("l", kek, key)
+			if err != nil || len(env.AESKey) != 24 {
+				s.Fail(cases.GoFail{Key: fmt.Sprintf("env:go:kek=%x:key=%x", kek, key[:]), What: "NewKeyEnvelope with a label and a valid KEK does not return a 24-byte wrapped key",
+					Replay: map[string]interface{}{"api": "backend.NewKeyEnvelope", "label": "l", "kek": fmt.Sprintf("%x", kek), "key": fmt.Sprintf("%x", key[:])}})
+				continue
+			}
+			w := append([]byte{}, env.AESKey...)
+			envUnwrapCase(s, w, kek, "unwrap-valid-"+aesName)
+			envUnwrapCase(s, flipBit(w, r.Intn(len(w)), uint(r.Intn(8))), kek, "unwrap-corrupted-ciphertext-"+aesName)
+			envUnwrapCase(s, w, r.Bytes(kl), "unwrap-wrong-kek-same-size-"+aesName)
+			envUnwrapCase(s, w, flipBit(kek, kl-1, uint(r.Intn(8))), "unwrap-wrong-kek-last-byte-"+aesName)
+			envUnwrapCase(s, w, flipBit(kek, r.Intn(kl), uint(r.Intn(8))), "unwrap-wrong-kek-one-bit-"+aesName)
+			// the KEK of another size that shares the leading bytes
+			switch kl {
+			case 16:
+				envUnwrapCase(s, w, append(append([]byte{}, kek...), r.Bytes(8)...), "unwrap-wrong-kek-extended-to-24")
+				envUnwrapCase(s, w, append(append([]byte{}, kek...), kek...), "unwrap-wrong-kek-doubled-to-32")
+			case 24:
+				envUnwrapCase(s, w, kek[:16], "unwrap-wrong-kek-truncated-to-16")
+				envUnwrapCase(s, w, append(append([]byte{}, kek...), r.Bytes(8)...), "unwrap-wrong-kek-extended-to-32")
+			case 32:
+				envUnwrapCase(s, w, kek[:16], "unwrap-wrong-kek-truncated-to-16")
+				envUnwrapCase(s, w, kek[:24], "unwrap-wrong-kek-truncated-to-24")
+			}
+			envUnwrapCase(s, w, kek[:kl-1], "unwrap-bad-kek-length")
+			envUnwrapCase(s, w, kek, "unwrap-valid-"+aesName)
+			if i%2 == 0 {
+				envUnwrapCase(s, append(append([]byte{}, w...), r.Bytes(1+r.Intn(7))...), kek, "unwrap-valid-plus-partial-block-"+aesName)
+				envUnwrapCase(s, r.Bytes(16+8*r.Intn(3)), kek, "unwrap-random-data-"+aesName)
+				envUnwrapCase(s, key[:], kek, "unwrap-clear-key-as-if-wrapped-"+aesName)
+				envUnwrapCase(s, w[:16], kek, "unwrap-one-block-dropped-"+aesName)
+			}
+			if i%3 == 1 { // key data of 3 and 4 blocks wrapped by the library directly, unwrapped by the envelope (first 16 bytes returned)
+				block, _ := aes.NewCipher(kek)
+				if d, err := keywrap.Wrap(block, r.Bytes(24+8*r.Intn(2))); err == nil {
+					envUnwrapCase(s, d, kek, "unwrap-longer-key-data-"+aesName)
+				}
+			}
+		}
+		kek := r.Bytes(kl)
+		envUnwrapCase(s, nil, kek, "unwrap-short-data-"+aesName)
+		envUnwrapCase(s, r.Bytes(7), kek, "unwrap-short-data-"+aesName)
+		envUnwrapCase(s, r.Bytes(8), kek, "unwrap-short-data-"+aesName)
+		envUnwrapCase(s, []byte{0xa6, 0xa6, 0xa6, 0xa6, 0xa6, 0xa6, 0xa6, 0xa6}, kek, "unwrap-short-data-"+aesName)
+		envUnwrapCase(s, append([]byte{0xa6, 0xa6, 0xa6, 0xa6, 0xa6, 0xa6, 0xa6, 0xa6}, r.Bytes(5)...), kek, "unwrap-short-data-"+aesName)
+		envUnwrapCase(s, r.Bytes(15), kek, "unwrap-short-data-"+aesName)
+	}
+	for _, bad := range []int{0, 1, 5, 15, 17, 23, 25, 31, 33, 48, 64} {
+		envUnwrapCase(s, r.Bytes(24), r.Bytes(bad), "unwrap-bad-kek-length")
+		envUnwrapCase(s, r.Bytes(3), r.Bytes(bad), "unwrap-bad-kek-length-short-data")
+		copy(key[:], r.Bytes(16))
+		envNewCase(s, "lbl", r.Bytes(bad), key, "envelope-bad-kek-length")
+	}
+	s.Exhaustive("key envelopes: KEK lengths 0, 1, 5, 15, 16, 17, 23, 24, 25, 31, 32, 33, 48, 64 through NewKeyEnvelope and Unwrap (16/24/32 wrapped, every other length the key-size error, empty KEK in clear), evaluated in Coq")
 
-	// AES-192 / AES-256 KEKs are not modelled in Coq: round trip, corruption and wrong KEK on the Go side
+	// additional volume on the Go side (all three KEK sizes): round trip, corruption, wrong KEK, equality with the library, JSON
 	m := 200
 	if thorough {
 		m = 5000
@@ -459,7 +531,7 @@ func envCases(s *cases.Set, r *cq.RNG, thorough bool) {
 	s.Extra["envelope_go_side_round_trips_aes128_192_256"] = m
 }
 
-// ---- ISO8601Time and the payload structs (Go side only) ----------------------------------
+// ---- ISO8601Time (Go-side volume; the cases evaluated in Coq are in iso.go) and the payload structs (Go side only) ----
 
 func randTime(r *cq.RNG) time.Time {
 	// years 1..9999, whole seconds plus sometimes a fraction (dropped by RFC 3339 without fraction), zone offsets in whole minutes
@@ -845,12 +917,13 @@ func main() {
 	dir, seed, thorough := cases.Args()
 	r := cq.NewRNG(seed)
 	s := cases.New("C17", dir, "LW.Corr.C17",
-		"Percentage -5..300 exhaustively and Frequency boundary / 0.1 MHz-step / random values through json.Marshal and Unmarshal with the printed float given exactly (m*2^e); arbitrary JSON numbers into UnmarshalJSON; HEXBytes values on a length ladder (0..4096 bytes around powers of two in Coq, up to 64 KiB on the Go side) and malformed texts; key envelopes with and without label, corrupted, wrong KEK, short and over-long data (AES-128 in Coq). Go side only: AES-192/256 envelopes, ISO8601Time, the 20 payload structs with random optional fields and with every variable-length field (HEXBytes, strings, slices) at lengths 17/256/257/4096. Every case is non-trivial; distinct = distinct printed case")
+		"Percentage -5..300 exhaustively and Frequency boundary / 0.1 MHz-step / random values through json.Marshal and Unmarshal with the printed float given exactly (m*2^e); arbitrary JSON numbers into UnmarshalJSON; HEXBytes values on a length ladder (0..4096 bytes around powers of two in Coq, up to 64 KiB on the Go side) and malformed texts; key envelopes under KEKs of 16, 24 and 32 bytes (AES-128/192/256; RFC 3394 4.1-4.3 vectors first) and of every refused length: with and without label, one KEK / key bit changed, corrupted, wrong KEK of the same and of another size, short and over-long data; ISO8601Time: boundary instants x zone offsets, every month end, random instants of the years 0..9999 with whole-minute zones, instants outside RFC 3339 (format only), and texts into UnmarshalText (hand-written malformed list, fractions, day-of-month and field limits, zone limits, one-character mutations, random), all evaluated in Coq against format_rfc3339 / parse_rfc3339. Go side only: the 20 payload structs with random optional fields and with every variable-length field (HEXBytes, strings, slices) at lengths 17/256/257/4096, plus more volume for envelopes and timestamps. Every case is non-trivial; distinct = distinct printed case")
 	floatCases(s, r.Fork(), thorough)
 	hexCases(s, r.Fork(), thorough)
 	envCases(s, r.Fork(), thorough)
 	isoCases(s, r.Fork(), thorough)
 	structCases(s, r.Fork(), thorough)
+	isoCoqCases(s, r.Fork(), thorough)
 	if err := s.Finish(); err != nil {
 		fmt.Fprintln(os.Stderr, err)
 		os.Exit(2)
